@@ -302,6 +302,7 @@ CHECKS = {
             dict(name="free", test="TestC15Free", checks=(120, 20000), shards=(4, 14)),
             dict(name="pingpong", test="TestC15PingPong", kind="enum", shards=(4, 12)),
             dict(name="close-windows", test="TestC15CloseWindows", kind="enum", shards=(8, 14)),
+            dict(name="wake-windows", test="TestC15WakeWindows", kind="enum", shards=(8, 14)),
         ]),
 
     "C20": dict(
